@@ -41,8 +41,8 @@
 (* logged around cancel().  The select happened somewhere between the      *)
 (* previous worker event (or Sync) and its own event: wsel remembers the   *)
 (* stop state then, and the branch must be right for SOME stop state       *)
-(* between wsel and now.  The flush decision of an append is not an event: *)
-(* both decisions are tried and the next event tells.                      *)
+(* between wsel and now.  The flush decision after an append is not an     *)
+(* event: a silent step tries both decisions and the next events tell.     *)
 (***************************************************************************)
 EXTENDS ZipSender, TraceLib
 
@@ -65,7 +65,6 @@ StopOrd(s) == CASE s = "no" -> 0 [] s = "cancelling" -> 1 [] OTHER -> 2
 Between(a, b) == {s \in {"no", "cancelling", "stopping"} : StopOrd(a) <= StopOrd(s) /\ StopOrd(s) <= StopOrd(b)}
 
 \* the private state reported with a worker event equals the specification's after the step
-\* (ft: Append reports before the first time is noted, see TraceAppend)
 StNoFt(e) == /\ e.st.blen = blen' /\ e.st.count = count' /\ e.st.obs = settings'
              /\ (Has(e.st, "qlen") => e.st.qlen = Len(queue'))
 St(e) == StNoFt(e) /\ e.st.ft = firstTime'
@@ -104,9 +103,13 @@ TraceAppendRet  == Step("AppendRet") /\ wpc = "off" /\ UNCHANGED vars /\ Quiet
 
 TraceAppend ==
   /\ Step("Append") /\ wcur # <<>> /\ wcur[1].id = Ev.id
-  /\ \E fl \in BOOLEAN : WAppend(fl)
-  /\ StNoFt(Ev) /\ Ev.st.ft = firstTime     \* reported before the first time is noted
-  /\ W
+  /\ WAppend /\ St(Ev) /\ W
+
+\* the decision that follows an append is not an event: both outcomes are tried, the next events tell
+TraceDecide ==
+  /\ wpc = "dec" /\ l <= NTrace /\ l' = l
+  /\ \E fl \in BOOLEAN : WDecide(fl)
+  /\ Quiet
 
 \* the pack the client received is the one the specification hands over
 PackSeen(e, p) ==
@@ -158,7 +161,7 @@ TraceNext ==
   /\ \/ TraceReset \/ TraceNew \/ TraceAdd \/ TraceRefused \/ TraceStopCall \/ TraceStopRet \/ TraceSync
      \/ TracePoll \/ TraceStopSeen \/ TraceTake \/ TraceIdle \/ TraceAppendCall \/ TraceAppendRet \/ TraceAppend
      \/ TraceSend \/ TraceCleared \/ TraceExit \/ TraceDirectBegin \/ TraceDirectEnd \/ TracePeek
-     \/ TraceApplyConfig \/ TraceEnd
+     \/ TraceApplyConfig \/ TraceEnd \/ TraceDecide
   /\ InvAll'
   /\ FlushWhenDueStep
 
